@@ -12,8 +12,11 @@ import (
 	"net/http/httptest"
 	"os"
 	"path/filepath"
+	"runtime"
 	"strconv"
 	"strings"
+	"sync"
+	"time"
 
 	"github.com/tmpim/casket"
 	_ "github.com/tmpim/casket/caskethttp/gzip"
@@ -552,10 +555,178 @@ func c18BodilessGen(g *hx.Gen) {
 	}
 }
 
+// ---- c18.pool: the pooled gzip writers under overlapping requests ----
+//
+// c18.pool  level  first  k
+//   One site (gzip at `level`) behind a real net/http server.  Step 1: one request whose handler
+//   behaves as `first` (its answer is not judged: some of these handlers break the handler
+//   contract): ok (writes a page) | hdr-err (WriteHeader(200) through the compressing writer, then
+//   returns 500) | write-err (writes, then returns 500) | err (returns 404 untouched) | panic-after-write.
+//   Step 2: k overlapping requests; their handlers write a first piece, meet at a barrier (so every
+//   one holds its gzip writer at the same time), then write the rest.  out = k results: ok, or
+//   what is wrong with that response.  GOMAXPROCS is 1 while the case runs, so that sync.Pool
+//   hands objects out in the order they were put in (deterministic).
+
+type c18Barrier struct {
+	mu    sync.Mutex
+	n     int
+	count int
+	ch    chan struct{}
+}
+
+func (b *c18Barrier) wait() bool {
+	b.mu.Lock()
+	b.count++
+	if b.count == b.n {
+		close(b.ch)
+	}
+	b.mu.Unlock()
+	select {
+	case <-b.ch:
+		return true
+	case <-time.After(5 * time.Second):
+		return false
+	}
+}
+
+func c18PoolEval(f []string) (string, []string) {
+	if len(f) != 3 {
+		return "bad-case", nil
+	}
+	k, _ := strconv.Atoi(f[2])
+	if k < 1 || k > 8 {
+		return "bad-case", nil
+	}
+	mids, err := c18Middleware(hx.HS("*") + "||0|" + f[0])
+	if err != nil {
+		return "setup-error:" + err.Error(), nil
+	}
+	old := runtime.GOMAXPROCS(1)
+	defer runtime.GOMAXPROCS(old)
+	bar := &c18Barrier{n: k, ch: make(chan struct{})}
+	part := func(id, which string) string {
+		return fmt.Sprintf("request-%s-part-%s-%s|", id, which, strings.Repeat(id, 40))
+	}
+	inner := httpserver.HandlerFunc(func(w http.ResponseWriter, r *http.Request) (int, error) {
+		w.Header().Set("Content-Type", "text/plain; charset=utf-8")
+		if id := r.Header.Get("X-C18-Conc"); id != "" {
+			io.WriteString(w, part(id, "one"))
+			if !bar.wait() {
+				return 0, nil
+			}
+			io.WriteString(w, part(id, "two"))
+			return 0, nil
+		}
+		switch f[1] {
+		case "ok":
+			io.WriteString(w, "a page")
+			return 0, nil
+		case "hdr-err":
+			w.WriteHeader(200)
+			return 500, errors.New("failed after the header")
+		case "write-err":
+			io.WriteString(w, "half a page")
+			return 500, errors.New("failed after writing")
+		case "err":
+			return 404, nil
+		case "panic-after-write":
+			io.WriteString(w, "half a page")
+			panic("c18.pool handler panic")
+		}
+		return 0, nil
+	})
+	h := httpserver.Handler(inner)
+	for i := len(mids) - 1; i >= 0; i-- {
+		h = mids[i](h)
+	}
+	srv := httptest.NewServer(http.HandlerFunc(func(w http.ResponseWriter, r *http.Request) {
+		defer func() {
+			if rec := recover(); rec != nil { // what Server.ServeHTTP does
+				httpserver.DefaultErrorFunc(w, r, 500)
+			}
+		}()
+		status, _ := h.ServeHTTP(w, r)
+		if status >= 400 {
+			httpserver.DefaultErrorFunc(w, r, status)
+		}
+	}))
+	defer srv.Close()
+	get := func(id string) string {
+		req, _ := http.NewRequest("GET", srv.URL+"/p.txt", nil)
+		req.Header.Set("Accept-Encoding", "gzip")
+		if id != "" {
+			req.Header.Set("X-C18-Conc", id)
+		}
+		tr := &http.Transport{DisableCompression: true}
+		defer tr.CloseIdleConnections()
+		res, err := tr.RoundTrip(req)
+		if err != nil {
+			return "bad:roundtrip"
+		}
+		body, rerr := io.ReadAll(res.Body)
+		res.Body.Close()
+		if id == "" {
+			return "ignored"
+		}
+		if rerr != nil {
+			return "bad:undecodable:read-error"
+		}
+		if res.Header.Get("Content-Encoding") != "gzip" {
+			return "bad:not-compressed"
+		}
+		zr, err := stdgzip.NewReader(bytes.NewReader(body))
+		if err != nil {
+			return "bad:undecodable:no-gzip-header"
+		}
+		dec, err := io.ReadAll(zr)
+		if err != nil {
+			return "bad:undecodable:broken-stream"
+		}
+		if string(dec) != part(id, "one")+part(id, "two") {
+			return "bad:decoded-differs"
+		}
+		return "ok"
+	}
+	get("") // step 1
+	res := make([]string, k)
+	var wg sync.WaitGroup
+	for i := 0; i < k; i++ {
+		wg.Add(1)
+		go func(i int) {
+			defer wg.Done()
+			res[i] = get(string(rune('a' + i)))
+		}(i)
+	}
+	wg.Wait()
+	return strings.Join(res, ","), []string{"first=" + f[1], "k=" + f[2]}
+}
+
+func c18PoolGen(g *hx.Gen) {
+	for _, level := range []string{"", "1", "9"} {
+		for _, first := range []string{"ok", "hdr-err", "write-err", "err", "panic-after-write"} {
+			for _, k := range []string{"2", "3", "4"} {
+				if !g.Thorough() && level == "1" && k != "2" {
+					continue
+				}
+				g.Case(level, first, k)
+			}
+		}
+	}
+}
+
 var c18LiveOps = []string{"w", "c", "s", "c,w", "c,f", "c,f,c", "w,c", "h200,c", "h200,c,w", "f,c", "c,c,c", "s,w", "s,f,s", "w,f,w", "h404,c,f", "c,h500,w", "f,w", "h201,w,s,c",
 	"h103,w", "h103,h200,w", "h103,h404,w", "h103,c,w", "h103,h204"} // 103 Early Hints: informational, the response header proper follows
 
 func c18LiveGen(g *hx.Gen) {
+	// an informational header, then an error status without a response of the handler's own
+	for _, ops := range []string{"h103", "h102", "h103,h103"} {
+		for _, ae := range []string{"gzip", ""} {
+			for _, ret := range []int{404, 500, 0} {
+				term, plen := c18Body("", 40)
+				g.Case(c18Blocks[0], hx.HS("/a.txt"), hx.HS(ae), "|-|0|s", term, strconv.Itoa(plen), ops, strconv.Itoa(ret))
+			}
+		}
+	}
 	for _, ops := range c18LiveOps {
 		for _, ae := range []string{"gzip", "", "gzip;q=0"} {
 			for _, bl := range []string{c18Blocks[0], c18Blocks[4], c18Blocks[2]} {
@@ -941,6 +1112,7 @@ func c18RangeGen(g *hx.Gen) {
 
 func init() {
 	hx.Register(&hx.Stream{ID: "C18", Name: "c18.range", Gen: c18RangeGen, Eval: c18RangeEval, Setup: c18StaticSetup, Teardown: c18StaticTeardown})
+	hx.Register(&hx.Stream{ID: "C18", Name: "c18.pool", Gen: c18PoolGen, Eval: c18PoolEval, Serial: true})
 	hx.Register(&hx.Stream{ID: "C18", Name: "c18.bodiless", Gen: c18BodilessGen, Eval: c18BodilessEval})
 	hx.Register(&hx.Stream{ID: "C18", Name: "c18.live", Gen: c18LiveGen, Eval: c18LiveEval})
 	hx.Register(&hx.Stream{ID: "C18", Name: "c18.wrap", Gen: c18WrapGen, Eval: c18WrapEval})
